@@ -1013,10 +1013,23 @@ func (r *RepData) readMP4Segment(vodFS fs.FS, assetPath string, time uint64, nr 
 		return seg, fmt.Errorf("decode %s: %w", repPath, err)
 	}
 
+	if err := sr.AccError(); err != nil {
+		// The file ends before the last box does (e.g. an interrupted download)
+		return seg, fmt.Errorf("decode %s: truncated file: %w", repPath, err)
+	}
+
 	if len(mp4Seg.Segments) != 1 {
 		return seg, fmt.Errorf("number of segments is %d, not 1", len(mp4Seg.Segments))
 	}
 	s := mp4Seg.Segments[0]
+	if len(s.Fragments) == 0 {
+		return seg, fmt.Errorf("no fragment in %s", repPath)
+	}
+	for _, f := range s.Fragments {
+		if f.Moof == nil || f.Moof.Traf == nil || f.Moof.Traf.Tfhd == nil || f.Moof.Traf.Tfdt == nil || f.Moof.Traf.Trun == nil || f.Mdat == nil {
+			return seg, fmt.Errorf("incomplete fragment in %s", repPath)
+		}
+	}
 
 	t := s.Fragments[0].Moof.Traf.Tfdt.BaseMediaDecodeTime()
 	nf := len(s.Fragments)
